@@ -233,7 +233,7 @@ fn families(thorough: bool) -> Vec<(String, String)> {
     // ... and every kind of data definition whose image reaches or crosses the last byte of memory
     for def in ["db 5", "dw 5", "db [2]", "dw [2]", "db \"ab\"", "dw \"ab\"", "db [1,2]", "dw [1,2]", "db [2;7]", "dw [2;7]", "db -1", "dw -1", "dw offset s_"] {
         for pad in [13usize, 14, 15] {
-            let text = format!("set 0xffff\ndb [{}]\ns_: {}\nt_: db 9\nstart:\nmov al, byte s_\nmov bl, byte t_\nprint mem 0xFFFFD : 3\nprint mem 0 : 4\n", pad, def);
+            let text = format!("set 0xffff\ndb [{}]\ns_: {}\nt_: db 9\nstart:\nmov al, byte s_\nmov bl, byte t_\nprint mem 0xFFFFD : 2\nprint mem 0 : 4\n", pad, def);
             v.push((format!("data at the end of memory: {} after {} bytes", def, pad), text));
         }
     }
